@@ -86,7 +86,7 @@ func (f *MemFile) Chmod(mode fs.FileMode) error {
 	defer nd.Unlock()
 
 	if !nd.setMode(mode, f.vfs.User()) {
-		return &fs.PathError{Op: op, Path: f.name, Err: f.vfs.err.PermDenied}
+		return &fs.PathError{Op: op, Path: f.name, Err: f.vfs.err.OpNotPermitted}
 	}
 
 	return nil
